@@ -279,6 +279,7 @@ pub struct RunInfo {
     pub faults_fired: usize,
     pub misuse: Option<String>,
     pub stuck: bool,
+    pub fault_offsets: Vec<usize>,
 }
 
 /// Reads with `Reader::read_event_into` over a scripted `BufRead`.
@@ -315,6 +316,7 @@ pub fn run_buffered(input: &[u8], cfg: u8, script: &Script, extra: usize, stop_a
         info.fill_calls = src.calls;
         info.faults_fired = src.faults_fired;
         info.misuse = src.misuse.clone();
+        info.fault_offsets = src.fault_offsets.clone();
     });
     if let Err(p) = r {
         out.push(Obs { ev: Ev::Err(E::Panic(p)), pos: 0, err_pos: 0 });
@@ -359,6 +361,7 @@ pub fn run_async(input: &[u8], cfg: u8, script: &Script, extra: usize, stop_at_e
         info.fill_calls = src.calls;
         info.faults_fired = src.faults_fired;
         info.misuse = src.misuse.clone();
+        info.fault_offsets = src.fault_offsets.clone();
     });
     if let Err(p) = r {
         out.push(Obs { ev: Ev::Err(E::Panic(p)), pos: 0, err_pos: 0 });
